@@ -705,3 +705,92 @@ Proof.
   pose proof (dcf_1d_eq_weight l) as H2. revert H. generalize (map (weight l) l) H2. generalize (dcf_1d l).
   intros a b H3. induction H3; intros HF; constructor; inversion HF; subst; [rewrite H; assumption | auto].
 Qed.
+
+(* ---------- weights sum to the covered length (telescoping) ---------- *)
+Definition qsum1 (l : list Q) : Q := fold_right Qplus 0 l.
+
+Lemma conv3_sum u : (2 <= length u)%nat ->
+  qsum1 (conv3 u) == (nth (length u - 1) u 0 + nth (length u - 2) u 0 - nth 0 u 0 - nth 1 u 0) / 2.
+Proof.
+  induction u as [|a r IH]; intros Hl; [simpl in Hl; lia|].
+  destruct r as [|b [|c t]].
+  - simpl in Hl. lia.
+  - simpl. field.
+  - change (conv3 (a :: b :: c :: t)) with (((-1 # 2) * a + (1 # 2) * c) :: conv3 (b :: c :: t)).
+    change (qsum1 (((-1 # 2) * a + (1 # 2) * c) :: conv3 (b :: c :: t)))
+      with (((-1 # 2) * a + (1 # 2) * c) + qsum1 (conv3 (b :: c :: t))).
+    rewrite IH by (simpl; lia).
+    replace (length (a :: b :: c :: t) - 1)%nat with (S (length (b :: c :: t) - 1)) by (simpl; lia).
+    replace (length (a :: b :: c :: t) - 2)%nat with (S (length (b :: c :: t) - 2)) by (simpl; lia).
+    change (nth (S (length (b :: c :: t) - 1)) (a :: b :: c :: t) 0) with (nth (length (b :: c :: t) - 1) (b :: c :: t) 0).
+    change (nth (S (length (b :: c :: t) - 2)) (a :: b :: c :: t) 0) with (nth (length (b :: c :: t) - 2) (b :: c :: t) 0).
+    change (nth 0 (a :: b :: c :: t) 0) with a. change (nth 1 (a :: b :: c :: t) 0) with b.
+    change (nth 0 (b :: c :: t) 0) with b. change (nth 1 (b :: c :: t) 0) with c.
+    field.
+Qed.
+
+Lemma count_zero_above a r : Forall (Qlt a) r -> count a r = O.
+Proof.
+  induction 1 as [|y r Hy HF IH]; simpl; [reflexivity|].
+  destruct (Qeq_bool a y) eqn:E; [|exact IH]. apply Qeq_bool_iff in E. rewrite E in Hy. exfalso. exact (Qlt_irrefl _ Hy).
+Qed.
+
+Lemma count_sorted l x : StronglySorted Qlt l -> In x l -> count x l = 1%nat.
+Proof.
+  induction 1 as [|a r HS IH HF]; intros Hx; [destruct Hx|].
+  simpl. destruct Hx as [->|Hx].
+  - assert (Qeq_bool x x = true) as -> by (apply Qeq_bool_iff; reflexivity). rewrite (count_zero_above x r HF). reflexivity.
+  - assert (Qeq_bool x a = false) as ->.
+    { destruct (Qeq_bool x a) eqn:E; [|reflexivity]. apply Qeq_bool_iff in E.
+      rewrite Forall_forall in HF. specialize (HF x Hx). rewrite E in HF. exfalso. exact (Qlt_irrefl _ HF). }
+    apply IH. exact Hx.
+Qed.
+
+Lemma Forall2_nth_Qeq a b : length a = length b -> (forall i, (i < length a)%nat -> nth i a 0 == nth i b 0) -> Forall2 Qeq a b.
+Proof.
+  revert b. induction a as [|x a IH]; intros [|y b] Hl H; simpl in Hl; try lia; constructor.
+  - apply (H O). simpl. lia.
+  - apply IH; [lia|]. intros i Hi. apply (H (S i)). simpl. lia.
+Qed.
+
+(* sorted distinct samples: the code returns exactly the central differences *)
+Lemma dcf_1d_sorted l : StronglySorted Qlt l -> Forall2 Qeq (dcf_1d l) (central_diff l).
+Proof.
+  intros HS. eapply Forall2_Qeq_trans; [apply dcf_1d_eq_weight|].
+  apply Forall2_nth_Qeq; [rewrite map_length, central_diff_length; reflexivity|].
+  rewrite map_length. intros i Hi.
+  rewrite (nth_indep _ 0 (weight l 0)) by (rewrite map_length; exact Hi).
+  rewrite (map_nth (weight l) l 0 i). unfold weight.
+  rewrite (count_sorted l _ HS (nth_In l 0 Hi)).
+  rewrite central_diff_nth by exact Hi.
+  rewrite (cell_len_by_spec l (nth i l 0) _ _ (sorted_lower l i HS Hi) (sorted_upper l i HS Hi)).
+  unfold qnat. simpl. field.
+Qed.
+
+Lemma qsum1_compat a b : Forall2 Qeq a b -> qsum1 a == qsum1 b.
+Proof. induction 1; simpl; [reflexivity|]. rewrite H, IHForall2. reflexivity. Qed.
+
+Lemma Forall2_tl {A B} (R : A -> B -> Prop) a b : Forall2 R a b -> Forall2 R (tl a) (tl b).
+Proof. destruct 1; simpl; [constructor | assumption]. Qed.
+
+Lemma Forall2_removelast {A B} (R : A -> B -> Prop) a b : Forall2 R a b -> Forall2 R (removelast a) (removelast b).
+Proof.
+  induction 1 as [|x y a b Hxy Hab IH]; simpl; [constructor|].
+  destruct Hab; [constructor | constructor; assumption].
+Qed.
+
+(* the interior weights of sorted distinct samples x_0 < ... < x_{n-1} add up to the length they cover,
+   from the midpoint of the first gap to the midpoint of the last gap *)
+Theorem dcf_1d_interior_sum l : StronglySorted Qlt l -> (3 <= length l)%nat ->
+  qsum1 (removelast (tl (dcf_1d l)))
+  == (nth (length l - 1) l 0 + nth (length l - 2) l 0) / 2 - (nth 0 l 0 + nth 1 l 0) / 2.
+Proof.
+  intros HS Hl.
+  rewrite (qsum1_compat _ _ (Forall2_removelast _ _ _ (Forall2_tl _ _ _ (dcf_1d_sorted l HS)))).
+  destruct l as [|a [|b [|c t]]]; try (simpl in Hl; lia).
+  set (u := a :: b :: c :: t) in *.
+  assert (central_diff u = (b - a) :: conv3 u ++ [nth (length u - 1) u 0 - nth (length u - 2) u 0]) as -> by reflexivity.
+  change (tl ((b - a) :: conv3 u ++ [nth (length u - 1) u 0 - nth (length u - 2) u 0]))
+    with (conv3 u ++ [nth (length u - 1) u 0 - nth (length u - 2) u 0]).
+  rewrite removelast_last. rewrite conv3_sum by (subst u; simpl; lia). field.
+Qed.
